@@ -1,4 +1,5 @@
 import SSModel.Trickery
+import SSModel.Gen.Consts
 /-!
 C20 — fallback analysis is a sound ordered over-approximation; failures only warn.
 Property theorems only; model `SSModel/Trickery.lean`.
@@ -92,3 +93,33 @@ example : run true [.query, .set (some false), .query, .query, .set none, .query
     = [true, false, false, true, true] := by decide
 example : byReferents [.other, .exitMethod 1 false, .other, .exitMethod 2 true] (some true)
     = [⟨some 1, false, false⟩, ⟨some 2, true, false⟩, ⟨none, true, true⟩] := by decide
+
+
+/-- The fast path of `_check_trickery_available` loads the module-level setting once (re-read from the source on every run). -/
+theorem C20_fast_path_source : SS.Gen.trickeryFastPathReads = 1 := by decide
+
+/-- **C20_fast_path_atomic**: with the fast path as the source has it, whatever other threads do to the setting while the call is
+in progress, the call returns a Boolean that one of the settings it saw stands for -- the old value, the new value, or
+auto-detection if it saw `None`; never Python's `None`. -/
+theorem C20_fast_path_atomic (auto : Bool) (obs : Nat → Option Bool) :
+    Explained auto obs 2 (checkConc SS.Gen.trickeryFastPathReads auto obs) := by
+  rw [C20_fast_path_source]
+  unfold checkConc Explained
+  simp only [BEq.rfl, if_true]
+  cases h0 : obs 0 with
+  | some b => exact ⟨b, rfl, 0, by omega, by simp [h0]⟩
+  | none =>
+    cases h1 : obs 1 with
+    | some b => exact ⟨b, rfl, 1, by omega, by simp [h1]⟩
+    | none => exact ⟨auto, rfl, 1, by omega, by simp [h1]⟩
+
+/-- The code before F55 read the setting twice: a `set_trickery_enabled(None)` landing between the two reads makes the call return
+`None`, which no setting explains (before: True, after: auto-detect = True). -/
+theorem C20_F55_old_code_witness :
+    checkConc 2 true (fun k => if k = 0 then some true else none) = none
+    ∧ ¬ Explained true (fun k => if k = 0 then some true else none) 3 (checkConc 2 true (fun k => if k = 0 then some true else none)) := by
+  refine ⟨rfl, ?_⟩
+  rintro ⟨b, hb, _⟩
+  simp [checkConc] at hb
+
+example : checkConc 1 true (fun k => if k = 0 then some true else none) = some true := rfl
